@@ -118,6 +118,17 @@ def program(draw, depth):
                 [["def", "pe2", 2, False]], draw(st.booleans()), None,
                 [{"cond": {"lit": draw(st.booleans())}, "items": [["def", "pe3", 3, False]]}]]
         body = body + [blk_, ["def", "peafter", 4, False]]
+    if draw(st.integers(0, 3)) == 0:
+        # a nested block inside EVERY clause of a block, under every truth assignment: a nested true clause in a later
+        # clause must stay off when an earlier clause of the enclosing block was selected
+        k = draw(st.integers(2, 3))
+        clauses_ = []
+        for i in range(k):
+            inner = ["block", [{"cond": {"lit": draw(st.booleans())}, "items": [["def", f"li{i}", i, False]]}],
+                     ([["def", f"le{i}", i + 5, False]] if draw(st.booleans()) else None), True]
+            clauses_.append({"cond": {"lit": draw(st.booleans())}, "items": [["def", f"lo{i}", i, False], inner]})
+        body = body + [["block", clauses_, ([["def", "lelse", 8, False]] if draw(st.booleans()) else None), draw(st.booleans())],
+                       ["def", "lafter", 9, False]]
     stray = draw(st.sampled_from([None] * 9 + ["else_end", "end_end", "else_start", "end_start", "else_after_closed",
                                                "else_in_clause", "else_in_group", "else_deeper_after_node",
                                                "else_in_unselected_clause", "second_end_in_unselected_clause",
